@@ -22,7 +22,8 @@ AUDIT_FILE = "LoguruModel/Audit/C01.lean"
 DRIVER = "C01"
 RULE = ("operation histories (add/remove/remove()/configure/level/enable/disable/log, ~8 % malformed calls) over the "
         "module-name alphabet {'', None, a, ab, a.b, a.bc, a.b.c, 'a.', a..b, .a, b}, thresholds and log levels around "
-        "the level numbers, filters none/''/name/dict/callable; every op's observable (returned id, error kind, ordered "
+        "the level numbers, filters none/''/name/dict/callable, ~12 % of the sinks with a stop() that raises (fault inside "
+        "remove/remove()/configure); every op's observable (returned id, error kind, ordered "
         "list of receiving handler ids, lazy evaluation counts) is compared between implementation, Python spec oracle "
         "and Lean model.  non-trivial = the history contains a delivering log and an enable/disable issued after a "
         "log from a module that call affects; distinct by the whole history")
@@ -90,7 +91,7 @@ def l_no(n):
 def l_op(op):
     t = op[0]
     if t == "add":
-        return "add %s %s" % (l_level(op[1]), l_filter(op[2]))
+        return "add %s %s %d" % (l_level(op[1]), l_filter(op[2]), 1 if stop_fails(op) else 0)
     if t == "rm":
         return "rm %d" % op[1]
     if t in ("rmall", "rmbad", "levelbad", "enbad", "disbad"):
@@ -104,6 +105,11 @@ def l_op(op):
     if t == "cfg":
         return ";".join(["cfg %d" % (1 if op[1] else 0)] + [l_op(s) for s in op[2]])
     raise ValueError(op)
+
+
+def stop_fails(op):
+    """["add", level, filter, True]: the sink object's stop() raises OSError (a fault injected into remove)"""
+    return len(op) > 3 and bool(op[3])
 
 
 def line_of(history):
@@ -148,6 +154,19 @@ CODE_PLAIN = compile("logger.log(lvl, 'm')", "<c01>", "exec")
 CODE_LAZY = compile("logger.opt(lazy=True).log(lvl, '{}{k}', t1, k=t2)", "<c01>", "exec")
 
 
+class FailingStopSink:
+    """a stream-like sink (write/stop) whose stop() raises: remove() then raises after unregistering"""
+
+    def __init__(self, events, label):
+        self.events, self.label = events, label
+
+    def write(self, message):
+        self.events.append(self.label)
+
+    def stop(self):
+        raise OSError("cannot stop sink %d" % self.label)
+
+
 class Impl:
     def __init__(self):
         from loguru._logger import Core, Logger
@@ -156,15 +175,17 @@ class Impl:
         self.events = []
         self.attempts = 0      # add() calls issued so far = label of the next sink
 
-    def _sink(self):
+    def _sink(self, failing_stop=False):
         label = self.attempts
         self.attempts += 1
         ev = self.events
+        if failing_stop:
+            return FailingStopSink(ev, label)
         return lambda m: ev.append(label)
 
     def _add_kwargs(self, op):
-        return dict(sink=self._sink(), level=py_level(op[1]), filter=py_filter(op[2]), format="{message}",
-                    colorize=False, catch=False)
+        return dict(sink=self._sink(stop_fails(op)), level=py_level(op[1]), filter=py_filter(op[2]),
+                    format="{message}", colorize=False, catch=False)
 
     def do(self, op):
         try:
@@ -357,8 +378,15 @@ class SpecOracle:
         thr = self.level_no(op[1]) if op[1][0] == "n" else op[1][1]
         if thr < 0:
             raise SpecErr("ValueError")
-        self.regs.append((hid, thr, f))
+        self.regs.append((hid, thr, f, stop_fails(op)))
         return hid
+
+    def _remove_all(self):
+        """handlers go in registration order; the first sink whose stop() raises ends the call"""
+        while self.regs:
+            h = self.regs.pop(0)
+            if h[3]:
+                raise SpecErr("OSError")
 
     def _level(self, name, no, other):
         if no[0] == "none" and not other:
@@ -381,12 +409,15 @@ class SpecOracle:
         if t == "add":
             return "id %d" % self._add(op)
         if t == "rm":
-            if not any(h[0] == op[1] for h in self.regs):
+            hit = [h for h in self.regs if h[0] == op[1]]
+            if not hit:
                 raise SpecErr("ValueError")
-            self.regs = [h for h in self.regs if h[0] != op[1]]
+            self.regs = [h for h in self.regs if h[0] != op[1]]      # unregistered whatever stop() does
+            if hit[0][3]:
+                raise SpecErr("OSError")
             return "ok"
         if t == "rmall":
-            self.regs = []
+            self._remove_all()
             return "ok"
         if t in ("rmbad", "levelbad", "enbad", "disbad"):
             raise SpecErr("TypeError")
@@ -401,14 +432,14 @@ class SpecOracle:
                 return "-> lazy=0"          # nothing registered: the call is a no-op (even with a bad level)
             no = self.level_no(op[1])
             m = op[2]
-            if not self.enabled(m) or not any(thr <= no for _, thr, _ in self.regs):
+            if not self.enabled(m) or not any(thr <= no for _, thr, _, _ in self.regs):
                 return "-> lazy=0"
-            ids = [hid for hid, thr, f in self.regs if thr <= no and self.accepts(f, no, m)]
+            ids = [hid for hid, thr, f, _ in self.regs if thr <= no and self.accepts(f, no, m)]
             return " ".join(["->"] + [str(i) for i in ids]) + " lazy=%d" % (1 if op[3] else 0)
         if t == "cfg":
             subs = op[2]
             if op[1]:
-                self.regs = []
+                self._remove_all()
             for s in subs:
                 if s[0] == "level":
                     self._level(s[1], s[2], s[3])
@@ -486,7 +517,10 @@ def g_add(rng, focus, malformed=False):
     lvl = g_level_arg(rng)
     if rng.chance(35):
         lvl = ["i", rng.choice([0, 5, 10])]       # low thresholds so that most logs deliver
-    return ["add", lvl, g_filter(rng, focus)]
+    op = ["add", lvl, g_filter(rng, focus)]
+    if rng.chance(12):
+        op.append(True)                            # sink whose stop() raises
+    return op
 
 
 def g_levelop(rng, malformed=False):
@@ -625,6 +659,8 @@ def check_histories(ctx, drv, histories, tag, with_model=True):
         ctx.case((tag, line_of(h)), nontrivial=nt)
         for op, o in zip(h, exp):
             ctx.stat("op:" + op[0])
+            if op[0] == "add" and stop_fails(op):
+                ctx.stat("fault:sink_stop_raises")
             if o.startswith("err"):
                 ctx.stat("result:" + o.replace(" ", ":"))
             elif op[0] == "log":
